@@ -12,7 +12,7 @@ from collections import deque
 
 from ..cfg import CFG
 from ..consteval import ConstEval
-from ..core import (AnalysisError, ancestors, ap, call_attr, calls, facts, find_calls, handler_names,
+from ..core import (AnalysisError, ancestors, ap, atoms, conditions, call_attr, calls, facts, find_calls, handler_names,
                     handler_reraises, is_none_test, norm, set_parents, src, stores, try_contexts, walk)
 from .common import (class_methods_reachable, has_path_fact, loops_over, spec_symbol, struct_fmt_of_prim,
                      store_index, call_index)
@@ -115,10 +115,14 @@ def r1(ctx):
                  {f.qual for f in class_methods_reachable(repo, pb, depth=3)}
     des_cls = hf.cls
 
-    def owner_ok(f, extra=()):
+    def direct_owner(f, extra=()):
         if f.qual in MSG_RAW_OWNERS or f.qual in extra:
             return True
         return f.cls is not None and des_cls is not None and f.cls == des_cls and f.qual in des_owners
+
+    def owner_ok(f, extra=()):
+        # an owner, or a helper (method, function, context manager) that only owners call - transitively
+        return direct_owner(f, extra) or _only_called_by(repo, f, lambda g: direct_owner(g, extra))
 
     # ---- who may write raw_body
     raw_w = [(f, st) for f, st in _writers(repo, "raw_body") if _is_message_field_store(repo, f, st)]
@@ -214,23 +218,43 @@ def r1(ctx):
         elif isinstance(n, ast.Call) and isinstance(n.func, ast.Attribute) and ap(n.func.value) in ("self", "cls") \
                 and n.func.attr not in ("template_dict",) and repo.lookup_method(sf.cls, n.func.attr) is not None:
             reenc.append(n)
-    ctx.floor("C02.R1", "re-encode sites in serialize", len(reenc), 2)
+    ctx.floor("C02.R1", "re-encode sites in serialize", len(reenc), 1)
     for n in reenc:
         ctx.ob("C02.R1", f"serialize: re-encode site {norm(n)} only without a raw body", raw_fact(n) is False, ctx.w(sf, n),
                "touching msg.blocks (which triggers the lazy parse) or re-encoding while a raw body is present: an "
                "unparseable body is no longer forwardable / would be emitted twice")
 
-    # ---- retained window starts where the serializer's header ends
+    # ---- framing around the body: unconditional writes are the header, writes under msg.has_acks the ack trailer
+    # (the flag under which the header parser cuts the trailer off the retained body); nothing else may be
+    # written to the datagram under some other condition
     hdr_w = 0
-    nhdr = 0
+    nhdr = ntrail = 0
     for c in find_calls(sf.node, "write", into_defs=False):
         recv = ap(c.func.value) if isinstance(c.func, ast.Attribute) else None
-        if recv in out_writers and c.args and spec_symbol(c.args[0]) and not has_path_fact(c, "has_acks", True, sf.node):
+        if not (recv in out_writers and c.args and spec_symbol(c.args[0])):
+            continue
+        conds = _output_conditions(c, sf.node)
+        if not conds:
             fmt = struct_fmt_of_prim(repo, spec_symbol(c.args[0]))
             ctx.require(fmt is not None, f"serialize: unknown header spec {src(c.args[0])}")
             hdr_w += struct.calcsize("<" + fmt)
             nhdr += 1
+            continue
+        on_flag = all(pol and (ap(e) or "").endswith(".has_acks") for e, pol in conds)
+        ntrail += 1
+        ctx.ob("C02.R1", f"serialize: trailer write {norm(c)} emitted exactly under {m}.has_acks", on_flag, ctx.w(sf, c),
+               f"written under {[norm(e) + ('' if p else ' (negated)') for e, p in conds]}: the header parser strips the "
+               f"appended-ack trailer iff the ACK flag is set, so it must be written back iff the flag is set")
     ctx.floor("C02.R1", "serializer header writes", nhdr, 3)
+    ctx.floor("C02.R1", "serializer trailer writes", ntrail, 1)
+    data_params0 = [a.arg for a in hf.node.args.args if a.arg not in ("self", "cls")]
+    strips = [st for st in stores(hf.node, into_defs=False) if st.kind == "assign" and st.path in data_params0]
+    ctx.ob("C02.R1", "header parser: ack trailer cut off the datagram before the body is retained", len(strips) >= 1, hf.where,
+           "the retained raw body would still contain the appended acks, which serialize writes again")
+    for st in strips:
+        ctx.ob("C02.R1", f"header parser: trailer cut `{norm(st.node)}` exactly under has_acks",
+               has_path_fact(st.node, "has_acks", True, hf.node), ctx.w(hf, st.node),
+               "trailer stripped under a different condition than the one serialize writes it back under")
     hm = _msg_param_or_local(hf)
     sets = [st for st in stores(hf.node) if st.path == f"{hm}.raw_body" and st.kind == "assign"]
     ctx.floor("C02.R1", "raw_body set sites in the header parser", len(sets), 1)
@@ -251,6 +275,35 @@ def r1(ctx):
                f"window starts at {lo}, serializer writes {hdr_w} header bytes before the raw body")
 
 
+def _output_conditions(node, fn_node):
+    """Atomic conditions under which `node` contributes to the output: enclosing branches and earlier early
+    *returns*; guards that only raise are not output conditions (no datagram is produced at all)."""
+    raising = {id(n.test) for n in walk(fn_node) if isinstance(n, ast.If) and (
+        (n.body and isinstance(n.body[-1], ast.Raise)) or (n.orelse and isinstance(n.orelse[-1], ast.Raise)))}
+    out = []
+    for c in conditions(node, fn_node):
+        if c.kind in ("early-exit", "assert") and (id(c.test) in raising or c.kind == "assert"):
+            continue
+        out.extend(atoms(c.test, c.polarity))
+    return out
+
+
+def _only_called_by(repo, f, allowed, depth=0, seen=()):
+    """f has call sites (by name, over-approximate) and every one of them lies in a function that is allowed, or in
+    a function that itself is only called by allowed ones."""
+    if depth > 3 or f.full in seen:
+        return False
+    sites = [(g, c) for g, c in call_index(repo).get(f.name, []) if g != f]
+    if not sites:
+        return False
+    for g, _c in sites:
+        if allowed(g):
+            continue
+        if not _only_called_by(repo, g, allowed, depth + 1, seen + (f.full,)):
+            return False
+    return True
+
+
 def _msg_param_or_local(hf):
     """The header parser builds the Message itself: name of the local bound to Message(...)."""
     for st in stores(hf.node, into_defs=False):
@@ -268,6 +321,20 @@ def _strip_total_calls(fn_node):
     fn2 = copy.deepcopy(fn_node)
 
     class T(ast.NodeTransformer):
+        def visit_ExceptHandler(self, node):
+            # `except Exception` lets KeyboardInterrupt / SystemExit / other BaseExceptions through: for the
+            # restore rule it is not a catch-all (the CFG builder would treat it as one)
+            self.generic_visit(node)
+            if node.type is not None:
+                elts = node.type.elts if isinstance(node.type, ast.Tuple) else [node.type]
+                if not any((ap(e) or "").split(".")[-1] == "BaseException" for e in elts):
+                    for e in elts:
+                        if isinstance(e, ast.Name) and e.id == "Exception":
+                            e.id = "NotEveryBaseException"
+                        elif isinstance(e, ast.Attribute) and e.attr == "Exception":
+                            e.attr = "NotEveryBaseException"
+            return node
+
         def visit_Call(self, node):
             self.generic_visit(node)
             name = ap(node.func) or ""
